@@ -10,7 +10,7 @@ Record case := mkCase {
                                    9 ethereum 10 ftp 11 http 12 https 13 ipp 14 ldap 15 memcached 16 ntp
                                    17 redis 18 smtp 19 snmp 20 ssh-auth 21 ssh-simulator 22 telnet 23 tftp 24 vnc *)
   c_udp : bool;
-  c_stream : N;                 (* 1 dialogue 2 truncated 3 mutated 4 raw 5 corpus 6 ssh dialogue 8 tftp load 9 systematic BER 10 size 11 abandoned resource 12 concurrent rare branches *)
+  c_stream : N;                 (* 1 dialogue 2 truncated 3 mutated 4 raw 5 corpus 6 ssh dialogue 8 tftp load 9 systematic BER 10 size 11 abandoned resource 12 concurrent rare branches / hot paths 13 declared sizes 14 key-sequence prefixes *)
   c_conns : list conn;          (* per connection: the writes (tcp) / datagrams (udp) *)
   c_ssh : list (N * bytes);     (* ssh dialogue: channel requests (type code, payload) *)
   c_sshchan : N;                (* 0 session, 1 direct-tcpip, 2 forwarded-tcpip, 3 other *)
@@ -46,7 +46,10 @@ Definition obs_class (c : case) : N :=
 (* the property on the observation itself: the process is alive, serves a fresh
    connection, and nothing keeps allocating once the clients are gone *)
 Definition prop_b (c : case) : bool :=
-  (o_died c =? 0)%N && negb (o_grow c) && o_probe c.
+  (o_died c =? 0)%N && negb (o_grow c) && o_probe c && (o_conns c <=? o_fin c)%N.
+(* last clause: every handler returned once its client was gone (a handler that spins for
+   ever is a failure that is NOT confined to its connection: it keeps a goroutine and a
+   processor busy for the life of the process) *)
 
 (* ---- the model's prediction ---- *)
 Definition class_of_res (r : res) : N :=
@@ -172,6 +175,7 @@ Definition SIG_LDAP_STACK := 17%N.
 Definition SIG_FTP_DATA_GOROUTINE := 18%N.
 Definition SIG_STACK := 19%N.
 Definition SIG_CONCURRENT_MAP := 20%N.
+Definition SIG_NEVER_RETURNS := 21%N.
 
 (* regression signature of the repaired loop: a dialogue with an env or exec request *)
 Definition ssh_in_class (c : case) : bool :=
@@ -195,6 +199,7 @@ Definition case_sig (c : case) : N :=
   else if (k =? K_DIED 2)%N then SIG_CONCURRENT_MAP
   else if negb (o_died c =? 0)%N then SIG_DIED
   else if o_grow c then SIG_GROWTH
+  else if (o_fin c <? o_conns c)%N then SIG_NEVER_RETURNS
   else SIG_NOPROBE.
 
 Definition violations (cs : list case) : list (N * N) :=
